@@ -118,8 +118,11 @@ partial def loop (h : IO.FS.Stream) (d : DS) : IO Unit := do
       let cb : Option (Option Call) := match Drv.field more "cb" with
         | none => some none
         | some c => (parseCall d.g (c.splitOn "/")).map some
-      match ks, cb with
-      | some ks, some cb =>
+      let race : Option (Option Call) := match Drv.field more "race" with
+        | none => some none
+        | some c => if bits == "i" && (Drv.field more "cb").isNone then (parseCall d.g (c.splitOn "/")).map some else none
+      match ks, cb, race with
+      | some ks, some cb, some race =>
         let out := bits.contains 'o'; let inn := bits.contains 'i'; let err := bits.contains 'e'
         let dl := deliverable d.s out inn err
         let s1 := evTake d.g d.s out inn err ks
@@ -134,9 +137,16 @@ partial def loop (h : IO.FS.Stream) (d : DS) : IO Unit := do
         let (d3, str) := observe { d2 with nctl := d.nctl } (evEnd d.g d2.s)
         if d3.s.hung then IO.println hungLine; loop h { d3 with dead := true }
         else
+          -- a racing call of another goroutine waits for the conn mutex: it runs after the poller's tail
+          let (d4, rcs, str) := match race with
+            | some c =>
+              let (s4, r) := doCall d.g d3.s c
+              let (d4, str4) := observe { d3 with nctl := d.nctl } { s4 with ctl := s4.ctl }
+              (d4, showRet r, str4)
+            | none => (d3, "-", str)
           let dstr := (if dl.1 then "o" else "") ++ (if dl.2.1 then "i" else "") ++ (if dl.2.2 then "e" else "")
-          IO.println s!"R deliv={if dstr == "" then "-" else dstr} cb={cbs} {str}"; loop h d3
-      | _, _ => IO.println "bad-op"; loop h { d with dead := true }
+          IO.println s!"R deliv={if dstr == "" then "-" else dstr} cb={cbs} rc={rcs} {str}"; loop h d4
+      | _, _, _ => IO.println "bad-op"; loop h { d with dead := true }
     | ["close"] =>
       let (d', str) := observe d (close d.s)
       IO.println s!"R {str}"; loop h d'
